@@ -70,4 +70,17 @@ def hyp (F : WFields) : Bool :=
   -- a cell field needs at least one cell (the writer cannot deduce the component count otherwise)
   (F.cf.isEmpty || (F.cells.any fun b => !b.2.isEmpty))
 
+/-- every written array has fewer than 2^64 payload bytes (the `UInt64` header holds the true length), the
+    offsets fit `int64`: no array of the data set has 2^61 or more scalars.  Always true in practice; it is a
+    separate hypothesis because it is about the size of the data, not about its form. -/
+def sizeOk (F : WFields) : Bool :=
+  decide (F.points.length * 24 < 256 ^ 8) &&
+  decide ((allCells F.cells).length * 8 < 256 ^ 8) &&
+  decide (((allCells F.cells).flatMap (·.2)).length * 8 < 256 ^ 8) &&
+  F.pf.all (fun f => decide (f.2.items.length * 8 < 256 ^ 8)) &&
+  (dedup (F.cf.map (·.1))).all (fun n =>
+    match cellFieldValues F n with
+    | some v => decide (v.items.length * 8 < 256 ^ 8)
+    | none => true)
+
 end Fc.W.Spec
